@@ -1,0 +1,8 @@
+//go:build !verif
+
+// Package verifhook provides named points between successive durable writes of the node
+// database backends. Without the verif build tag the points are empty.
+package verifhook
+
+// Point does nothing unless built with the verif tag.
+func Point(string) {}
